@@ -35,11 +35,15 @@ def tlc_threads(cfgname, obs, nt, rounds, extra=(), props=True):
 def run(prop, tier, replay=None):
     t0 = time.time()
     A.build("plain", "tsan")
-    exe = A.build_harness("threadrun")
-    exe_tsan = A.build_harness("threadrun", variant="tsan")
+    wrap = ["-Wl,--wrap=open,--wrap=fstat,--wrap=read,--wrap=close"]
+    exe = A.build_harness("threadrun", extra=wrap)
+    exe_tsan = A.build_harness("threadrun", variant="tsan", extra=wrap)
     work = os.path.join(A.BUILD, "work")
     os.makedirs(work, exist_ok=True)
     pid = os.getpid()
+    thrdir = os.path.join(work, "thr-%d" % pid)
+    os.makedirs(thrdir, exist_ok=True)
+    os.environ["THR_DIR"] = thrdir
     viol, notes = [], []
     # 0. shared-state inventory
     syms, unknown = inventory()
@@ -77,7 +81,7 @@ def run(prop, tier, replay=None):
     if len(scheds) < nsim // 2:
         raise A.Infra("TLC simulation produced only %d schedules:\n%s" % (len(scheds), out2[-1500:]))
     total = {t: sum(nacc[(t + r) % nitems] for r in range(2)) for t in (1, 2)}
-    step = 1 if tier == "thorough" else 5
+    step = 1 if tier == "thorough" else 2
     for k in range(0, total[1] + 1, step):
         scheds.append([1] * k + [2] * total[2] + [1] * (total[1] - k))
         scheds.append([2] * k + [1] * total[1] + [2] * (total[2] - k))
@@ -118,6 +122,7 @@ def run(prop, tier, replay=None):
     if sum(1 for l in out3.splitlines() if "BAD" in l) != len(bad):
         raise A.Infra("unparsable BAD lines in ThreadTrace output")
     os.unlink(tr); os.unlink(obs)
+    shutil.rmtree(thrdir, ignore_errors=True)
     drift, reasons = collections.Counter(), collections.Counter()
     for b in bad:
         reason = b.group(2)
